@@ -164,7 +164,6 @@ package events
 //@   assigns nothing
 //@   ensures c > 0
 
-
 // ---------------------------------------------------------------- streaming hand-off (sequential part only)
 
 // publishing visits every registered stream (the loop is never left early) and each visit either hands the event to that
